@@ -116,6 +116,8 @@ package jrpc2
 //@   ensures[C06:at-most-once] handlerRuns == old(handlerRuns) || handlerRuns == old(handlerRuns) + 1
 //@   ensures[C06:cancelled-waiter] handlerRuns == old(handlerRuns) ==> result0 == nil && result1 != nil
 //@   ensures[C14:valid-error] validErr(result1)
+//@   ensures[C14:result-is-json] called("call.h#1") && callres("call.h#1", 1, "error") == nil && result1 == nil ==> len(result0) > 0 && compactJSON(str(result0))
+//@   ensures[C14:unmarshalable-is-error] called("call.h#1") && callres("call.h#1", 1, "error") == nil && !marshalable(callres("call.h#1", 0, "any")) ==> result1 != nil && result0 == nil
 //@   ensures[C01:notification-error-discarded] called("call.h#1") && req.id == nil && callres("call.h#1", 1, "error") != nil ==> result0 == nil && result1 == nil
 //@   ensures[C14:call-error-kept] called("call.h#1") && req.id != nil && callres("call.h#1", 1, "error") != nil ==> result0 == nil && result1 == callres("call.h#1", 1, "error")
 
